@@ -139,7 +139,7 @@ class ChannelItem(EFLRItem, DimensionedItem):
             else:
                 # only set the element limit if it was None before
                 logger.debug(f"Setting element limit of {self} to {dim}")
-            self.element_limit.value = dim
+                self.element_limit.value = dim
 
     @staticmethod
     def _compare_element_limit_vs_dimension(el: list[int], dim: list[int]) -> bool:
